@@ -70,6 +70,76 @@ def elbo_case(rng):
     return c
 
 
+def _stub_parts(kind):
+    a, b = [(1, 0), (2, 1), (3, 2)][kind]
+    return lambda v, t, p: -(a * jnp.abs(v - p)) - b
+
+
+def elbo_nested_case(rng):
+    """family = a random structured program (nested @gen functions and Cond with shared, possibly hierarchical,
+    addresses) over tape-stub distributions bound to a score-function ADEV primitive; target = the same
+    sub-program (other arguments) followed by an observed site that depends on its return value"""
+    import gfi_build
+    from gfi_build import ProgGen
+    pg = ProgGen(rng, max_depth=2, allow=("dist", "fn", "cond"), collide=0.0, dkinds=(0, 1, 2))
+    pg.collide_now = False
+    m = rng.choice([1, 2])
+    sub = pg.fn(["S"] * m, 2)
+    if rng.random() < 0.5:
+        # a Cond (decided by the first argument) whose branches share hierarchical addresses
+        for _ in range(30):
+            g, mc = pg.cond(1)
+            if all(b[0] == "fn" and any(sb[0] == "fn" for _, sb in gfi_build.calls_of(b[1])) for b in g[1:3]):
+                m = max(m, 1)
+                cargs = [["v", rng.randrange(m)] for _ in range(mc)]
+                sub = ["fn", ["call", 2, g, [["gt", ["v", 0], ["k", 0]]] + cargs, ["ret", ["v", m]]]]
+                break
+    family = ["fn", ["call", 0, sub, [["v", i] for i in range(m)], ["ret", ["v", m]]]]
+    k = rng.choice([0, 1, 2])
+    tobs = rng.randint(-2, 2)
+    target = ["fn", ["call", 0, sub, [["v", i] for i in range(m)],
+                     ["call", 1, ["dist", k], [["k", tobs], ["v", m]], ["ret", ["v", m + 1]]]]]
+    targs = [rng.randint(-2, 3) for _ in range(m)]
+    qargs = [rng.randint(-2, 3) for _ in range(m)]
+    c = {"kind": "elbo", "target": target, "family": family, "targs": targs, "qargs": qargs, "tape": [],
+         "overlap": False, "nlatent": 1, "nested": True, "has_cond": "cond" in json.dumps(sub)}
+    saved = gfi_build.STUBS
+    try:
+        rec = []
+
+        def rec_stub(kind):
+            def samp(t, p):
+                rec.append(float(t))
+                return t
+            return distribution(samp, _stub_parts(kind), name=f"rstub{kind}")
+
+        def adev_stub(kind):
+            lp = _stub_parts(kind)
+            return distribution(adev.reinforce(lambda t, p: t, lp, lambda key, t, p, sample_shape=(): t), lp, name=f"astub{kind}")
+
+        def mkfam():
+            def fam_src(constraint, *params):
+                return build(sub)(*params) @ name(0)
+            return gen(fam_src)
+        # the family's draws in execution order (both branches of a Cond are run): the model's tape
+        gfi_build.STUBS = [rec_stub(kk) for kk in range(3)] + list(saved[3:])
+        mkfam().simulate(None, *[jnp.float32(a) for a in qargs])
+        c["tape"] = [int(v) for v in rec]
+        gfi_build.STUBS = [adev_stub(kk) for kk in range(3)] + list(saved[3:])
+        cons = {name(1): tobs}
+        el = elbo_factory(build(target), mkfam(), {name(1): jnp.float32(tobs)}, tuple(jnp.float32(a) for a in targs))
+        v = float(el.estimate(*[jnp.float32(a) for a in qargs]))
+        if abs(v - round(v)) > 1e-3:
+            raise ValueError("non-integral")
+        c["value"] = int(round(v))
+        c["cons"] = canon_cm(target, cons)
+    except Exception as e:  # noqa: BLE001
+        c["err"] = type(e).__name__ + ": " + str(e)[:200]
+    finally:
+        gfi_build.STUBS = saved
+    return c
+
+
 def vi_case(rng):
     a = rng.choice([0.5, 1.0, 2.0])
     b = rng.choice([-1.0, 0.5, 3.0])
@@ -181,7 +251,7 @@ def main():
         if only_fam:
             cases.append(fam_case(rng))
             continue
-        cases.append(fam_case(rng) if i % 4 == 3 else elbo_case(rng) if i % 3 != 2 else vi_case(rng))
+        cases.append(fam_case(rng) if i % 4 == 3 else elbo_nested_case(rng) if i % 5 == 1 else elbo_case(rng) if i % 3 != 2 else vi_case(rng))
     json.dump(cases, open(out, "w"))
 
 
